@@ -289,6 +289,33 @@ def unparsable_cell_refused(cell: str) -> bool:
     return ok == (parses or cell.strip() == "-")
 
 
+_FOREIGN_CELLS = [True, False, 3, -1, 2.0, 0.25, float("nan"), 1 + 2j, "7", "x", None]
+_FOREIGN_KINDS = [("integer", int), ("float", float), ("complex", complex)]
+
+
+def foreign_typed_cell_refused(kind_sel: int, cell_sel: int) -> bool:
+    """
+    pre: 0 <= kind_sel < 3 and 0 <= cell_sel < 11
+    post: _
+    """
+    # A cell whose PYTHON type is not the declared one (a bool or a float in an integer column, a string, None ...):
+    # it is written as str(cell), so it is acceptable exactly when that text parses as the declared type;
+    # in particular a bool is not an integer cell ("True" does not parse) although isinstance(True, int) holds.
+    kind, ctor = _FOREIGN_KINDS[kind_sel]
+    cell = _FOREIGN_CELLS[cell_sel]
+    try:
+        ctor(str(cell))
+        parses = True
+    except ValueError:
+        parses = False
+    try:
+        _written_cell(kind, cell, "-", ctor(0))
+        ok = True
+    except _err.SCSVError:
+        ok = False
+    return ok == parses
+
+
 _COMPLEX = [complex(float("nan"), 0.0), 1.5 + 2j, 0j, complex(float("inf"), -1.0), -2.5j]
 
 
